@@ -638,8 +638,9 @@ class XMLParserMixin(
                     output = re.sub("&([A-Za-z0-9_]+);", r"&\g<1>", output)
                     if self.isentrylink or not self.entries[-1].get(element):
                         self.entries[-1][element] = output
-                    if output and self.entries[-1].get("links"):
-                        self.entries[-1]["links"][-1]["href"] = output
+                    link = self._last_item(self.entries[-1], "links")
+                    if output and link is not None:
+                        link["href"] = output
             else:
                 if element == "description":
                     element = "summary"
@@ -664,8 +665,9 @@ class XMLParserMixin(
                 # fix query variables; see above for the explanation
                 output = re.sub("&([A-Za-z0-9_]+);", r"&\g<1>", output)
                 context[element] = output
-                if context.get("links"):
-                    context["links"][-1]["href"] = output
+                link = self._last_item(context, "links")
+                if link is not None:
+                    link["href"] = output
             elif self.incontent:
                 contentparams = copy.deepcopy(self.contentparams)
                 contentparams["value"] = output
@@ -789,16 +791,31 @@ class XMLParserMixin(
         context[prefix + "_detail"][key] = value
         self._sync_author_detail()
         context.setdefault("authors", [FeedParserDict()])
-        context["authors"][-1][key] = value
+        author = self._last_item(context, "authors")
+        if author is not None:
+            author[key] = value
 
     def _save_contributor(self, key, value):
         context = self._get_context()
         context.setdefault("contributors", [FeedParserDict()])
-        context["contributors"][-1][key] = value
+        contributor = self._last_item(context, "contributors")
+        if contributor is not None:
+            contributor[key] = value
+
+    @staticmethod
+    def _last_item(context, key):
+        # The list that the parser keeps under `key` may have been replaced
+        # by the attributes or the text of a same-named element of the feed.
+        items = context.get(key)
+        if isinstance(items, list) and items and isinstance(items[-1], dict):
+            return items[-1]
+        return None
 
     def _sync_author_detail(self, key="author"):
         context = self._get_context()
-        detail = context.get("%ss" % key, [FeedParserDict()])[-1]
+        detail = self._last_item(context, "%ss" % key)
+        if detail is None:
+            detail = FeedParserDict()
         if detail:
             name = detail.get("name")
             email = detail.get("email")
